@@ -76,7 +76,29 @@ def rw_nest_all(p, t):
     return q, {}
 
 
+def rw_rename_ip(p, t):
+    """in place (only applied to an object that an earlier structural rewrite produced, never to the original)"""
+    names = runt.all_names(t)
+    ren = {names[0]: names[0] + "_x", names[-1]: names[-1] + "_y"}
+    p.update_renames(ren, update_from="current")
+    return p, ren
+
+
+def rw_scope_ip(p, t):
+    p.update_scope("sc", inputs="*", outputs="*")
+    return p, {n: "sc." + n for n in runt.all_names(t)}
+
+
+def rw_unscope_ip(p, t):
+    p.update_scope(None, inputs="*", outputs="*")
+    return p, {n: n.split(".", 1)[1] for n in runt.all_names(t) if "." in n}
+
+
+INPLACE = ("rename_ip", "scope_ip", "unscope_ip")
 REWRITES = {
+    "rename_ip": rw_rename_ip,
+    "scope_ip": rw_scope_ip,
+    "unscope_ip": rw_unscope_ip,
     "copy": rw_copy,
     "pickle": rw_pickle,
     "join": rw_join,
@@ -92,6 +114,9 @@ def _compose(p, t, ops):
     ren = {}
     for op in ops:
         inv = {v: k for k, v in ren.items()}
+        # the object has been used before it is rewritten: its cached structural properties are populated
+        # (a rewrite must not leave them stale, also on an object that came out of a copy / pickle round trip)
+        runt.warm(p)
         p, r = REWRITES[op](p, _renamed_template(t, ren))
         # compose the renamings (keys are original names)
         new = {}
@@ -423,13 +448,16 @@ def obligations(tier):
     thorough = tier == "thorough"
     obs = []
     rids = ["R2", "R3", "R5", "R7", "R9", "R19"] + (["R1", "R4", "R8", "R10"] if thorough else [])
-    singles = [(op,) for op in REWRITES]
-    pairs = [("copy", "rename"), ("rename", "scope"), ("join", "rename"), ("scope", "pickle"), ("pickle", "or"), ("scope_roundtrip", "rename")]
+    singles = [(op,) for op in REWRITES if op not in INPLACE]
+    pairs = [("copy", "rename"), ("rename", "scope"), ("join", "rename"), ("scope", "pickle"), ("pickle", "or"), ("scope_roundtrip", "rename"),
+             # a mutating rewrite applied to an object that came out of a structural one (stale caches / lost back references)
+             ("pickle", "scope_ip"), ("pickle", "rename_ip"), ("copy", "scope_ip"), ("or", "rename_ip"), ("or", "scope_ip"), ("join", "scope_ip"), ("copy", "rename_ip")]
+    triples_q = [("scope", "pickle", "unscope_ip"), ("pickle", "scope_ip", "unscope_ip")]
     triples = [("copy", "rename", "scope"), ("join", "scope", "pickle"), ("rename", "or", "scope_roundtrip")]
     for rid in rids:
         t = R[rid]
         nouts = len([o for fs in t for o in fs.outputs])
-        for ops in singles + pairs + (triples if thorough else []):
+        for ops in singles + pairs + triples_q + (triples if thorough else []):
             if "nest_all" in ops and rid in ("R6",):
                 continue
             obs.append(
